@@ -56,6 +56,9 @@ class EnumClassModel(SpecFn):
             if value not in vals:
                 I.raise_("ValueError", f"{value!r} is not a valid {self.name}")
             return make_member(self.full, value)
+        lo, hi = _bounds(value.e)
+        if lo is not None and vals == list(range(vals[0], vals[-1] + 1)) and vals[0] <= lo and hi <= vals[-1]:
+            return make_member(self.full, value)  # in range by construction (interval analysis of the term): no solver call
         ok = z3.simplify(z3.Or(*[value.e == v for v in vals]))
         if not z3.is_true(ok):
             if I.in_spec:
@@ -75,6 +78,41 @@ class EnumClassModel(SpecFn):
         if name == "__name__":
             return cls.name
         return bm.get_attr(I, cls, name)
+
+
+_bcache = {}
+
+
+def _bounds(e):
+    """(lo, hi) integer interval of a term built from literals, if-then-else, +, - over bounded parts; (None, None) if unknown"""
+    k = e.get_id()
+    r = _bcache.get(k)
+    if r is not None and r[0].eq(e):
+        return r[1]
+    out = (None, None)
+    if z3.is_int_value(e):
+        out = (e.as_long(), e.as_long())
+    elif z3.is_app(e):
+        kind = e.decl().kind()
+        ch = e.children()
+        if kind == z3.Z3_OP_ITE:
+            a, b = _bounds(ch[1]), _bounds(ch[2])
+            if a[0] is not None and b[0] is not None:
+                out = (min(a[0], b[0]), max(a[1], b[1]))
+        elif kind in (z3.Z3_OP_ADD, z3.Z3_OP_SUB) and len(ch) == 2:
+            a, b = _bounds(ch[0]), _bounds(ch[1])
+            if a[0] is not None and b[0] is not None:
+                out = (a[0] + b[0], a[1] + b[1]) if kind == z3.Z3_OP_ADD else (a[0] - b[1], a[1] - b[0])
+        elif kind == z3.Z3_OP_UMINUS:
+            a = _bounds(ch[0])
+            if a[0] is not None:
+                out = (-a[1], -a[0])
+        elif kind == z3.Z3_OP_MUL and len(ch) == 2 and z3.is_int_value(ch[0]):
+            c, a = ch[0].as_long(), _bounds(ch[1])
+            if a[0] is not None:
+                out = (min(c * a[0], c * a[1]), max(c * a[0], c * a[1]))
+    _bcache[k] = (e, out)
+    return out
 
 
 def b4_type():
@@ -200,7 +238,9 @@ def install(reg):
         raise PyvcError(f"attribute {name!r} of {obj!r} not modelled (line {I.lineno})")
 
     reg.getattr_fallback = getattr_fallback
-    for m in ("from_bool", "is_truthy", "is_falsy", "__invert__", "__and__", "__or__", "__bool__"):
+    # from_bool is NOT in this list: its verified contract (result.value == 4 if b else 1) is applied at call sites, which
+    # keeps a symbolic truth value symbolic instead of forking on it
+    for m in ("is_truthy", "is_falsy", "__invert__", "__and__", "__or__", "__bool__"):
         reg.always_inline.add(f"{B4}.{m}")
     if not any(n == "enum.Enum" for n, _ in reg.trusted):
         reg.trust(
